@@ -1070,6 +1070,11 @@ def run(ctx):
     n_boundary = strict_boundary_part(ctx)
     n_eval += n_boundary
     dist["strict_boundary_constructions"] = n_boundary
+    # the types a nested graph offers across its boundary, and the edge verdict, against coq/theories/BoundaryTypes.v
+    from harness.props import c19_boundary
+    n_bt, bt_stats = c19_boundary.boundary_model_part(ctx)
+    n_eval += n_bt
+    dist["boundary_types"] = bt_stats
     if res["error"]:
         ctx.violation("harness", res["error"])
     for (k, code, mv, real, mexp) in res["failed"]:
